@@ -127,6 +127,11 @@ theorem fragment_independent_response (cs : List Bytes) (h : stallFree 0 cs = tr
     Response.decodeChunked cs = Response.decode cs.flatten := by
   simp [Response.decodeChunked, Response.decode, decodeScan_eq_decodeChunks _ _ _ _ h, decodeChunks_eq_decodePure]
 
+/-- For readers that never return zero bytes (sockets, pipes, files) there is no side condition. -/
+theorem fragment_independent_nonempty_reads (cs : List Bytes) (h : ∀ c ∈ cs, c ≠ []) :
+    Request.decodeChunked cs = Request.decode cs.flatten ∧ Response.decodeChunked cs = Response.decode cs.flatten :=
+  ⟨fragment_independent_request cs (stallFree_of_nonempty cs h 0), fragment_independent_response cs (stallFree_of_nonempty cs h 0)⟩
+
 /-- Two fragmentations of the same stream decode alike. -/
 theorem fragment_independent (cs ds : List Bytes) (h : cs.flatten = ds.flatten)
     (hc : stallFree 0 cs = true) (hd : stallFree 0 ds = true) :
